@@ -53,17 +53,21 @@ EP_URL = "http://sim.test/sparql"
 
 def gen_case(rng, tier):
     channel = rng.choice(["nt", "nt", "tsv", "turtle_iter", "turtle", "turtle", "xml", "json-ld", "rdflib_graph", "rdflib_graph",
-                          "endpoint_on", "endpoint_off", "endpoint_off", "shape_map_local"])
+                          "endpoint_on", "endpoint_off", "endpoint_off", "endpoint_deep", "endpoint_deep", "shape_map_local"])
     endpoint = channel.startswith("endpoint")
-    kinds = ("node", "str", "int", "iri") if (endpoint or channel == "turtle_iter") else ("node", "str", "int", "lang", "date", "iri")
+    kinds = ("node", "str", "int", "iri", "iri2") if (endpoint or channel == "turtle_iter") else ("node", "str", "int", "lang", "date", "iri", "iri2")
     n_nodes = rng.choice([3, 4, 6, 8, 10]) if tier == "quick" else rng.choice([3, 4, 6, 8, 10, 16, 24])
     # tie-prone graphs: few distinct structures, so that equally frequent constraints abound
     triples = gen.gen_graph(rng, n_nodes=n_nodes, n_classes=rng.randint(1, 3), n_props=rng.randint(2, 5), kinds=kinds,
-                            density=rng.choice([0.5, 0.7, 0.9]))
+                            density=rng.choice([0.5, 0.7, 0.9]), twins=0 if endpoint else 0.06)
     tp = gen.CUSTOM_TYPE if rng.random() < 0.12 else gen.RDF_TYPE
     triples = gen.retype(gen.ensure_class(triples), tp)
     allow_sm = channel in ("nt", "endpoint_on", "endpoint_off", "shape_map_local", "rdflib_graph")
-    if channel == "shape_map_local":
+    if channel == "endpoint_deep":
+        # neighbours of the selected nodes are explored too (depth 2; endpoint answers count as IRIs only with strict
+        # corners) and become instances themselves through all_classes_mode
+        target = {"shape_map_raw": gen.gen_shape_map(rng, triples, type_prop=tp), "all_classes_mode": True}
+    elif channel == "shape_map_local":
         target = {"shape_map_raw": gen.gen_shape_map(rng, triples, type_prop=tp)}
     else:
         target = gen.gen_target(rng, triples, allow_shape_map=allow_sm, type_prop=tp)
@@ -74,6 +78,15 @@ def gen_case(rng, tier):
         options["detect_minimal_iri"] = True
     if rng.random() < 0.1:
         options["examples_mode"] = rng.choice(["all", "shape", "cons"])
+    if channel == "endpoint_deep":
+        options["depth_for_building_subgraph"] = 2
+        options["strict_syntax_with_corners"] = True
+    if channel == "endpoint_off" and rng.random() < 0.35:
+        # neighbours of neighbours are explored too; endpoint answers count as IRIs only with strict corners
+        options["depth_for_building_subgraph"] = 2
+        options["strict_syntax_with_corners"] = True
+        if rng.random() < 0.5 and "shape_map_raw" in target:
+            target["all_classes_mode"] = True
     ns = gen.gen_namespaces(rng, shape_prefix_pressure=0.2)
     all_taken = False
     if rng.random() < 0.06:
@@ -89,7 +102,7 @@ def materialise(case):
     """the exact bytes every child will read (computed in the parent only)"""
     triples = [gen.T(t) for t in case["graph"]]
     ch = case["channel"]
-    if ch in ("nt", "shape_map_local", "endpoint_on", "endpoint_off", "rdflib_graph"):
+    if ch in ("nt", "shape_map_local", "endpoint_on", "endpoint_off", "endpoint_deep", "rdflib_graph"):
         return gen.to_nt(triples)
     if ch == "tsv":
         return gen.to_tsv(triples)
@@ -143,11 +156,11 @@ def _case_kwargs(case, sim):
         g = rdflib.Graph()
         g.parse(data=doc, format="nt")
         kw["rdflib_graph"] = g
-    elif ch in ("endpoint_on", "endpoint_off"):
+    elif ch in ("endpoint_on", "endpoint_off", "endpoint_deep"):
         triples = [gen.T(t) for t in case["graph"]]
         sim.set_endpoint(SimEndpoint(sim, triples, row_seed=0, canonical_rows=True))
         kw["url_endpoint"] = EP_URL
-        if ch == "endpoint_off":
+        if ch != "endpoint_on":
             kw["disable_endpoint_cache"] = True
     return kw
 
